@@ -24,7 +24,11 @@ def random_case(prop, rng, tier):
     after = None
     if rng.random() < 0.6:
         after = [rng.choice(['src', 'copy']), rng.randrange(1 << 30)]
-    return {'graph': g, 'w': w, 'mode': mode, 'roots': roots, 'attrs': rng.random() < 0.5, 'after': after}
+    case = {'graph': g, 'w': w, 'mode': mode, 'roots': roots, 'attrs': rng.random() < 0.5, 'after': after}
+    if mode == 'subtree':
+        # the selection is "Iterable[Task] or a Task": lists, tuples, one-shot iterables, a task list of the WBS, a single task
+        case['selKind'] = rng.choice(['list', 'list', 'tuple', 'gen', 'iter', 'filter', 'tasklist'] + (['single'] if len(roots) == 1 else []))
+    return case
 
 
 def fields_of(t):
@@ -50,6 +54,11 @@ def execute(prop, case):
             t.estimate = i
     pre = u.snap()
     roots = case['roots']
+    kind = case.get('selKind', 'list')
+    if roots is not None and kind == 'tasklist':
+        # a task list obtained from the WBS itself: its members in WBS order, each once
+        chosen = set(roots)
+        roots = [u.u(t) for t in w.tasks if u.u(t) in chosen]
     sel = []
     for r in (list(w.roots) if roots is None else [u.obj(x) for x in roots]):
         for t in [r] + list(r.all_children):
@@ -57,7 +66,15 @@ def execute(prop, case):
                 sel.append(t)
     rec = {'fam': 'clone', 'pre': pre, 'w': u.m + case['w'], 'roots': roots}
     try:
-        c = w.clone() if case['mode'] == 'clone' else w.subtree([u.obj(x) for x in roots])
+        if case['mode'] == 'clone':
+            c = w.clone()
+        else:
+            objs_sel = [u.obj(x) for x in roots]
+            chosen_ids = set(id(o) for o in objs_sel)
+            arg = {'list': lambda: objs_sel, 'tuple': lambda: tuple(objs_sel), 'gen': lambda: (o for o in objs_sel),
+                   'iter': lambda: iter(objs_sel), 'filter': lambda: filter(lambda o: True, objs_sel),
+                   'tasklist': lambda: w.tasks(lambda t: id(t) in chosen_ids), 'single': lambda: objs_sel[0]}[kind]()
+            c = w.subtree(arg)
         rec['out'] = 'ok'
     except Exception as e:  # noqa
         rec['out'] = classify_exc(e)
